@@ -437,7 +437,7 @@ def run(repo, rep):
     # the sort key used for sort_dict_keys must be total: ordering of user keys is attempted inside
     # try/except TypeError and the fallback compares only types' names
     m0 = repo.module('prettyprinter')
-    srt = m0.classes.get('_AlwaysSortable')
+    srt = m0.classes.get(__import__('engine.roles', fromlist=['x']).name(repo, 'sortable_cls'))
     n += 1
     if srt is None:
         keyed = [c for f in m0.funcs.values() for c in ast.walk(f.node) if isinstance(c, ast.Call) and call_name(c) == 'sorted'
